@@ -56,4 +56,17 @@ def projectVals (cn : List String) (vs : List Value) : List String â†’ List Ty â
   | _, _ => []
 end
 
+
+mutual
+/-- field names are unique in every struct of the array -/
+def uniq : Arr â†’ Bool
+  | .prim _ _ _ _ _ => true
+  | .list _ _ _ _ _ child => uniq child
+  | .struct _ _ names cols => names.Nodup && uniqCols cols
+def uniqCols : List Arr â†’ Bool
+  | [] => true
+  | a :: as => uniq a && uniqCols as
+end
+
+
 end LanceModel.C40
